@@ -349,11 +349,19 @@ func run(c *ev.Ctx) {
 		}
 	}
 	scalarFamily(c)
+	orSetFamily(c)
 }
 
 func replay(raw stdjson.RawMessage) (bool, string) {
 	if v, d, ok := replayScalar(raw); ok {
 		return v, d
+	}
+	var o orSetCase
+	if err := stdjson.Unmarshal(raw, &o); err == nil && len(o.Set) > 0 {
+		cs := o.build()
+		_, r := lib.Check(cs.Spec())
+		control := len(o.Set) == 1
+		return r.Panic != "" || (control && !r.OK) || (!control && r.OK), fmt.Sprintf("%s: Check %s", cs.Describe(), r)
 	}
 	var cs caseT
 	if err := stdjson.Unmarshal(raw, &cs); err != nil {
